@@ -148,4 +148,6 @@ def sim_case(draw, schedulers, tier="quick", max_pipes=12, single_seg=False, for
     case = {"params": params, "arrivals": arrivals}
     if draw(st.integers(0, 5)) == 0:
         case["via_toml"] = True      # parameters handed over as a TOML file instead of a dict
+    elif draw(st.integers(0, 11)) == 0:
+        case["debug_log"] = True     # the package's default DEBUG logging left on (output discarded)
     return case
